@@ -309,7 +309,8 @@ def run(ctx) -> None:
         c = p.conds()
         sup = [e for e in p.evs if e.kind == "call" and e.extra.get("func") in ("super().dispatch", "FileSystemEventHandler.dispatch")]
         ign_dir = c.get("self.ignore_directories") is True and c.get("event.is_directory") is True
-        anys = [(a, v) for a, v in c.items() if a.startswith("any(") or a.split("(")[0] in exists_preds]
+        # whole-list tests only: a test about one element of a loop (`$elem(..)`) belongs to the search loop recognised below
+        anys = [(a, v) for a, v in c.items() if (a.startswith("any(") or a.split("(")[0] in exists_preds) and "$elem(" not in a]
         # the same search written out as nested loops that leave at the first match:
         #     for r in self.<regexes>: for p in paths: if r.match(p): <leave>
         # on a path it has found a match iff its last iteration is spliced in (final_iter) and ends in a positive .match() test
@@ -334,6 +335,27 @@ def run(ctx) -> None:
                 matched = bool(fin) and any(x.kind == "cond" and ".match(" in x.text and x.extra.get("truth") is True for x in later[fin[0] :])
                 anys.append((f"any(<search loop over {e_.text.replace('self._', 'self.')} x {inner.text}>)", matched))
                 inline_plist = inner.text
+        # ... or as a loop over the paths that asks, per path, whether some regex of one list matches it, and leaves at the first yes
+        # (what `any(helper(regexes, path) for path in paths)` abbreviates once the one-path helper is inlined)
+        for i_, e_ in enumerate(p.evs):
+            if e_.kind != "loop" or e_.extra.get("kind") != "for" or not e_.extra["paths"]:
+                continue
+            pat = re.compile(r"any\(\((\w+)\.match\(\$elem\(" + re.escape(e_.text) + r"\)\) for \1 in (self\._?(?:ignore_)?regexes)\)\)")
+            per = []
+            for b in e_.extra["paths"]:
+                cs = [(x.text, x.extra.get("truth")) for x in b.evs if x.kind == "cond"]
+                m_ = pat.fullmatch(cs[0][0]) if len(cs) == 1 else None
+                leaves = b.outcome == ("break",) or b.outcome[0] == "return"
+                per.append(m_.group(2) if m_ and (leaves == bool(cs[0][1])) else None)
+            if not per or None in per or len(set(per)) != 1:
+                continue
+            later = p.evs[i_ + 1 :]
+            # the spliced last iteration follows its own loop event directly (two searches may iterate the same list)
+            fin = later[:1] and later[0].kind == "final_iter" and later[0].text == e_.text
+            nxt = next((k for k, x in enumerate(later) if x.kind == "loop"), len(later))
+            matched = bool(fin) and any(x.kind == "cond" and pat.fullmatch(x.text) and x.extra.get("truth") is True for x in later[:nxt])
+            anys.append((f"any(<search loop over {per[0].replace('self._', 'self.')} x {e_.text}>)", matched))
+            inline_plist = e_.text
         if not ign_dir:
             rcalls = [e for e in p.evs if e.kind == "call"]
             # the list the regexes are matched against: the iterable named in the any(...) tests / the helper's path argument
@@ -416,9 +438,9 @@ def run(ctx) -> None:
         if c.get("ignore_regexes is None") is False and iasg:
             okc = False
             msgs.append("given ignore regexes replaced by the default")
-        if c.get("ignore_regexes is None") is None:
+        if c.get("ignore_regexes is None") is None and not re.search(r"\bignore_regexes or (\[\]|\(\))", st.get("_ignore_regexes", "")):
             okc = False
-            msgs.append("ignore_regexes is not tested against None")
+            msgs.append("ignore_regexes is not tested against None (nor replaced by `ignore_regexes or []` where it is iterated)")
         if "regexes" not in st.get("_regexes", "").replace("ignore_regexes", ""):
             okc = False
             msgs.append("include regexes not routed")
